@@ -113,7 +113,8 @@ def valid(case):
         return False
     full = t[0] == "srv"
     b = Book(int(t[1]), full)
-    big = set()      # connections whose current request is an upload head without body (C / Q<k>)
+    big = set()      # connections whose current request is an upload head without body (C / Q<k> / x)
+    expect = set()   # ... of which with Expect: 100-continue (x): y<k> lets the handler ask for the body
     for c in t[2:]:
         if c == "c":
             b.connect()
@@ -121,6 +122,17 @@ def valid(case):
             if not full:
                 return False
             big.add(b.connect())
+        elif c == "x":
+            if not full:
+                return False
+            k = b.connect()
+            big.add(k); expect.add(k)
+        elif c[0] == "y":
+            k = int(c[1:])
+            if not full or k not in b.handlers() or k not in expect:
+                return False
+            b.release(k)
+            big.discard(k); expect.discard(k)
         elif c[0] == "Q":
             k = int(c[1:])
             if not full or k not in b.idle() or k not in b.live or k in b.partial:
